@@ -1,5 +1,7 @@
 import Driver.Bls
 import Driver.Layout
+import Driver.Values
+import Driver.Wire
 /-! Correspondence driver: `lake env lean --run Driver/Main.lean <suite>`; one JSON case per input line,
     one JSON outcome per output line (`{"id":…, …}` or `{"id":…,"err":…}`). -/
 open Lean
@@ -10,6 +12,8 @@ def dispatch (suite : String) (j : Json) : Except String Json :=
   | "layout" => DriverLayout.handle j
   | "evolve" => DriverLayout.handlePair j
   | "cost" => DriverLayout.handleCost j
+  | "values" => DriverValues.handle j
+  | "wire" => DriverWire.handle j
   | s => throw s!"unknown suite {s}"
 
 partial def loop (suite : String) (h : IO.FS.Stream) (out : IO.FS.Stream) : IO Unit := do
